@@ -408,7 +408,7 @@ impl Domain for D {
         }
         // swept integer ranges (hash form)
         if thorough {
-            let step: i64 = 1 << 22;
+            let step: i64 = 1 << 20;
             let mut lo: i64 = -(1 << 31);
             while lo < (1 << 31) {
                 writeln!(w, "hashrange_wi {} {}", lo, lo + step).unwrap();
